@@ -166,6 +166,57 @@ func Scenarios(rng *Rand, lossless, mixed bool, quality int, classes []int) []*H
 		add(h, r, 10)
 		out = append(out, h)
 	}
+	// (k) the two candidates of a sub-frame disagree on the blend mode and the
+	// dispose-background one is smaller: a small opaque patch on a semi-transparent canvas,
+	// then the patch region cleared (dispose-none: a transparent block, no blending possible;
+	// dispose-background: nothing left to change inside the old rectangle, a tiny rectangle of
+	// kept semi-transparent pixels, blending possible and the kept pixels made transparent).
+	for _, alpha := range []byte{1, 64, 128, 254} {
+		for _, variant := range []int{0, 1, 2} {
+			w, hh := rng.Range(6, 12), rng.Range(6, 12)
+			h := mk(w, hh, 0, 0, 0)
+			bg := []byte{byte(rng.Pick(0, 200, 255)), byte(rng.Pick(0, 64)), byte(rng.Pick(90, 255)), alpha}
+			p0 := make([]byte, w*hh*4)
+			for i := 0; i < w*hh; i++ {
+				copy(p0[i*4:], bg)
+			}
+			pw, ph := rng.Range(2, 5), rng.Range(2, 5)
+			px, py := rng.Range(1, w-pw), rng.Range(1, hh-ph)
+			if variant != 2 { // even offsets: the snapped rectangle is the patch itself
+				px, py = px&^1, py&^1
+				if px == 0 && py == 0 {
+					px = 2
+					if px+pw > w {
+						pw = w - px
+					}
+				}
+			}
+			p1 := append([]byte(nil), p0...)
+			for y := py; y < py+ph; y++ {
+				for x := px; x < px+pw; x++ {
+					copy(p1[(y*w+x)*4:], []byte{byte(rng.U64()), byte(rng.U64()), byte(rng.U64()), 255})
+				}
+			}
+			p2 := append([]byte(nil), p1...)
+			for y := py; y < py+ph; y++ {
+				for x := px; x < px+pw; x++ {
+					copy(p2[(y*w+x)*4:], []byte{0, 0, 0, 0})
+				}
+			}
+			if variant == 1 { // plus one more changed pixel next to the old rectangle
+				o := ((py+ph-1)*w + px - 1) * 4
+				if px == 0 {
+					o = ((py+ph-1)*w + px + pw) * 4
+				}
+				copy(p2[o:], []byte{9, 9, 9, 255})
+			}
+			add(h, p0, 10)
+			add(h, p1, 10)
+			add(h, p2, 10)
+			add(h, p0, 10)
+			out = append(out, h)
+		}
+	}
 	// random placements on top
 	for _, h := range out {
 		for i := range h.Frames {
